@@ -963,3 +963,25 @@ Proof.
   - apply NoDup_map_fst_combine. exact Hl.
   - apply (nth_error_combine_In _ _ j); assumption.
 Qed.
+
+(* ================= chains of symbolic links: at most 40 are followed ================= *)
+Inductive chain (d : fsdir) : str -> nat -> str -> Prop :=
+| chain_file x c : dict_get x d = Some (FReg c) -> chain d x 0 c
+| chain_link x t n c : dict_get x d = Some (FLink t) -> chain d t n c -> chain d x (S n) c.
+Lemma fs_chain d x n c : chain d x n c -> forall fuel, fs_file fuel d x = if Nat.ltb n fuel then Some c else None.
+Proof.
+  induction 1 as [x c H|x t n c H _ IH]; intros fuel.
+  - destruct fuel; [reflexivity|]. cbn [fs_file]. rewrite H. reflexivity.
+  - destruct fuel; [reflexivity|]. cbn [fs_file]. rewrite H, IH.
+    change (Nat.ltb (S n) (S fuel)) with (Nat.ltb n fuel). reflexivity.
+Qed.
+Lemma fs_chain_submat d x n c : chain d x n c ->
+  submat_fs d x = if Nat.leb n 40 then submat_file c else submat_name x.
+Proof.
+  intros H. unfold submat_fs. rewrite (fs_chain d x n c H max_links). unfold max_links.
+  change (Nat.ltb n 41) with (Nat.leb n 40).
+  destruct (Nat.leb n 40); [apply (proj2 (file_wins x c))|reflexivity].
+Qed.
+Lemma chain_witness :
+  chain [(bs "nuc"%bs, FLink (bs "t"%bs)); (bs "t"%bs, FReg (bs "X"%bs))] (bs "nuc"%bs) 1 (bs "X"%bs).
+Proof. apply chain_link with (t := bs "t"%bs); [reflexivity|]. apply chain_file. reflexivity. Qed.
